@@ -837,6 +837,24 @@ func configFeeds(p *Prog, gField, cfgField string, div int64) (bool, string, str
 		}
 		return true
 	})
+	// the reader does not rewrite the configuration field itself before the transfer
+	ast.Inspect(fi.Decl.Body, func(m ast.Node) bool {
+		as, isAs := m.(*ast.AssignStmt)
+		if !isAs {
+			return true
+		}
+		for _, l := range as.Lhs {
+			if se, isSel := l.(*ast.SelectorExpr); isSel && se.Sel.Name == cfgField {
+				if sel, has := info.Selections[se]; has && sel.Kind() == types.FieldVal {
+					if name, _ := namedStruct(sel.Recv()); name == "Config" {
+						ok = false
+						det += fmt.Sprintf("; the configuration field %s is reassigned at %s", cfgField, p.Pos(as.Pos()))
+					}
+				}
+			}
+		}
+		return true
+	})
 	// no other writer in the program
 	for _, w := range p.Fields().Writers(FieldRef{"GlobalVarsMain", gField}) {
 		if w.Key != "hermes.readConfig" && !strings.HasPrefix(w.Key, "hermes.NewDefault") && w.Key != "hermes.NewGlobalVarsMain" {
